@@ -227,10 +227,11 @@ void gen(uint64_t seed, int tier, sim::Plan &p) {
         else if (k < 7) n = r.range(1, rs > 2 ? rs / 2 : 1);
         else n = r.range(1, rs + 1);
         if (n < 1) n = 1;
+        if (r.chance(0.02)) n = r.pick(std::vector<int64_t>{-1, -2, -4097, INT64_MAX, (int64_t)1 << 40}); // maximal requests (interpreted as size_t: SIZE_MAX, ...)
         if (r.chance(0.4)) {
             op.kind = OP_ACQ_UPTO;
             op.a = n;
-            op.b = r.chance(0.4) ? 1 : r.range(1, n);
+            op.b = (n < 0 || n > rs + 1) ? r.range(1, rs + 1) : (r.chance(0.4) ? 1 : r.range(1, n));
         } else {
             op.kind = OP_ACQ;
             op.a = n;
